@@ -69,6 +69,29 @@ func genTunnelPlan(r *rand.Rand) *ProxyPlan {
 		}
 		reqs = append(reqs, q)
 	}
+	// a client that announces "Connection: close" uses a new connection for what follows
+	for i := range reqs {
+		unreachable := p.Res[reqs[i].Res].Host == "down.test"
+		if unreachable && r.IntN(2) == 0 {
+			// content the proxy never forwards (nobody listens upstream), on a connection the client
+			// is about to give up: it must not be taken for a request
+			reqs[i].Method, reqs[i].Body, reqs[i].Range = "POST", 30, ""
+			reqs[i].BodyIsRequest = r.IntN(2) == 0
+		}
+		if r.IntN(10) == 0 || (unreachable && r.IntN(2) == 0) {
+			reqs[i].Hdr = append(reqs[i].Hdr, [2]string{"Connection", "close"})
+			if i+1 < len(reqs) {
+				reqs[i+1].SameConn = false
+			}
+		}
+	}
+	// pipelining: runs of body-less requests at the same instant go out in one write
+	for i := 0; i+1 < len(reqs); i++ {
+		a, b := reqs[i], reqs[i+1]
+		if a.Body == 0 && a.AtMs == b.AtMs && b.SameConn && len(a.Hdr) == 0 && (a.Method == "GET" || a.Method == "HEAD") && r.IntN(3) == 0 {
+			reqs[i].PipeNext = true
+		}
+	}
 	p.Clients = [][]PReq{reqs}
 	return p
 }
@@ -77,7 +100,7 @@ func tunnelVariant(p *ProxyPlan, transport string, sameConn bool) *ProxyPlan {
 	q := cloneProxyPlan(p)
 	q.Transport = transport
 	for i := range q.Clients[0] {
-		q.Clients[0][i].SameConn = sameConn
+		q.Clients[0][i].SameConn = sameConn && p.Clients[0][i].SameConn
 	}
 	return q
 }
@@ -157,6 +180,11 @@ func runTunnelPlan(t *testing.T, planAny any, ctl Ctl) *Result {
 				for _, v := range vs {
 					prevVals[k+": "+v] = true
 				}
+			}
+		}
+		for _, e := range []*Exch{e1, en, ep} {
+			if e.Unsolicited != "" {
+				res.violate("C10.a", "unsolicited-bytes-after-the-response", "%s: after the complete answer (%d) to a request that said Connection: close, more arrived on the connection: %q", desc, e.Status, e.Unsolicited)
 			}
 		}
 		// ---- C10.a / C10.c: T1 vs Tn
